@@ -31,7 +31,7 @@ RULE = ("catalogue of %d rejected-call classes (fit/partial_fit/add_arm/remove_a
         % (NC, POSITIONS, len(CTOR)))
 ROUNDS = {"quick": 2, "thorough": 20}
 BUDGET = {"quick": {"cases": 48 * NC * 2 + len(CTOR) * 4, "shards": 8},
-          "thorough": {"cases": 48 * NC * 20 + len(CTOR) * 40, "shards": 16, "wall_s": 3000}}
+          "thorough": {"cases": 48 * NC * 20 + len(CTOR) * 40, "shards": 16, "wall_s": 3600}}
 MIN = {"quick": {"evaluations": 2000, "nontrivial": 200, "counters": {"rejected_calls": 2000, "ctor_rejected": 60}},
        "thorough": {"evaluations": 20000, "nontrivial": 2000, "counters": {"rejected_calls": 20000, "ctor_rejected": 600}}}
 ASSUMPTIONS = ["a call counts as rejected iff it raises; calls of a catalogue class the library accepts are excluded (counted)",
@@ -95,7 +95,7 @@ def run_case(rs, ctx):
     binz = gen.pick(rs, [None, None, "thr_inside"]) if l == "ts" and "nonbinary" not in name else None
     cfg = gen.gen_cfg(rs, l, p, labels=gen.pick(rs, ["int", "str", "float"]), n_arms=int(rs.integers(2, 5)), binarizer=binz)
     nf = int(gen.pick(rs, [2, 3]))
-    if name in ("partial_fit:singular_l2_zero", "fit:singular_l2_zero") and cfg["lp"]["kind"] in ("lingreedy", "linucb"):
+    if name in ("partial_fit:singular_l2_zero", "fit:singular_l2_zero", "fit:singular_other_width") and cfg["lp"]["kind"] in ("lingreedy", "linucb"):
         cfg["lp"]["l2"], cfg["lp"]["scale"] = 0.0, False  # legal (validated as l2_lambda >= 0): no regularisation
         pos = "after_arm_change"
     if name == "partial_fit:fewer_rows_than_clusters_first_call":
@@ -144,6 +144,7 @@ def run_case(rs, ctx):
         return
     ctx.count("rejected_calls")
     ctx.count("rejected@" + pos)
+    ctx.count("rejected_class:" + name)
     wit = {"cfg": cfg, "history": hist, "position": pos, "class": name, "rejected_call": desc, "exception": exn}
     ctx.ev()
     if list(M.arms) != arms_before or [type(a) for a in M.arms] != [type(a) for a in arms_before]:
@@ -156,6 +157,10 @@ def run_case(rs, ctx):
         # a never-fitted bandit may be trained by fit or - equally legal - by a first partial_fit
         cont = gen.gen_ops(rs, cfg, sh2, 1, [gen.pick(rs, ["fit", "partial_fit"])], train_rows=(5, 12)) + \
             gen.gen_continuation(rs, cfg, sh2)
+    if gen.is_ctx(cfg) and sh.fitted:
+        # probes in the container whose reading depends on what the bandit believes its feature count to be
+        rowp = gen.gen_contexts(rs, 1 if sh.nf > 1 else 3, sh.nf)
+        cont = [{"op": "predict_expectations", "X": rowp, "x_enc": "series"}, {"op": "predict", "X": rowp, "x_enc": "series"}] + cont
     wit["continuation"] = cont
     if name.endswith("wrong_feature_count"):
         # a shape error from inside *prediction* is not among the rejections the property lists; prediction may advance
